@@ -362,7 +362,9 @@ def run(ctx):
     check_molden_atoms_unit(ctx, "R12")
     # the pure-function tags ([5D], [7F], [9G]) decide which functions the coefficients belong to; sections come in
     # any order, so a tag that follows [MO] must survive the orbital reader (the same evaluated clause as C01-R15)
-    ctx.borrow("c01", {"R15": "R13"})
+    # ... and the shells have to sit on their own nuclei for any norm check to mean anything: the [GTO] / $BASIS centre
+    # clauses (C01-R19 / R12, reader and writer evaluated against each other)
+    ctx.borrow("c01", {"R15": "R13", "R19": "R14", "R12": "R15"})
 
 
 def check_norm_expression(ctx, pred):
